@@ -170,3 +170,19 @@ Example C20_nonvacuous :
   run_un release RHalfEven Uround (mkdec MAXC 0) (-3) = OP /\
   run_dd release RHalfEven Bcdiv (mkdec (MAXC - 680) 0) (mkdec (10 ^ 36 - 4) 18) 0 = ON.
 Proof. vm_compute. repeat split. Qed.
+
+(* ---- the translated source (gen/GenCore.v): the rounding kernel and the wide product do not depend on the profile ---- *)
+From FP Require Import GenCore GenTieRound.
+
+Theorem C20_source_kernels_profile_free :
+  forall pf1 pf2 dflt om n d v,
+    - MAXC <= n <= MAXC -> - MAXC <= d <= MAXC -> d <> 0 -> 0 <= v < 2 ^ 128 ->
+    g_i128_div_rounded pf1 dflt n d om = g_i128_div_rounded pf2 dflt n d om /\
+    g_u128_mul_u128 pf1 v v = g_u128_mul_u128 pf2 v v.
+Proof. exact src_kernels_profile_free. Qed.
+Check C20_source_kernels_profile_free :
+  forall pf1 pf2 dflt om n d v,
+    - MAXC <= n <= MAXC -> - MAXC <= d <= MAXC -> d <> 0 -> 0 <= v < 2 ^ 128 ->
+    g_i128_div_rounded pf1 dflt n d om = g_i128_div_rounded pf2 dflt n d om /\
+    g_u128_mul_u128 pf1 v v = g_u128_mul_u128 pf2 v v.
+Print Assumptions C20_source_kernels_profile_free.
